@@ -69,7 +69,7 @@ class TypeScriptFunctionExtractor(TypeScriptBaseAnalyzer):
             return self._extract_arrow_function(node)
         if node.type == "method_definition":
             return self._extract_method_definition(node)
-        if node.type == "function":
+        if node.type in ("function", "function_expression"):  # name differs between grammar versions
             return self._extract_function_expression(node)
         return None
 
